@@ -523,6 +523,8 @@ def run(rep):
     # R01.8: shared obligations
     from . import declsem
     declsem.decl_sub(rep, mod, 'R01.8')
+    declsem.provides_users(rep, mod, 'R01.7')
+    cside.sb_queries(rep, 'R01.7', only='decl')
     sup = find_def(mod, '_implementedBy_super')
     p = shared.params(sup)[0]
     owner = resolve_local(sup, ast.Name(id='implemented_by_self', ctx=ast.Load()))
